@@ -19,7 +19,7 @@ echo "demo clean:   $CLEAN"; echo "demo patched: $PATCHED"; echo "build: ${BUILD
 cd /repo && git status --short | grep -q . && { echo "/repo dirty"; exit 3; }
 git -C /repo apply $DIFF
 for C in $CHECKS; do
-  OUT=$(cd /verif && timeout 1500 bin/gosx check $C --tier ${TIER:-quick} 2>&1); RC=$?
+  OUT=$(cd /verif && GOSX_EVIDENCE_DIR=/tmp/ev-mut timeout 1500 bin/gosx check $C --tier ${TIER:-quick} 2>&1); RC=$?
   echo "check $C exit=$RC"; echo "$OUT" | grep -E "violation in|INCONCLUSIVE|VIOLATION" | cut -c1-260 | head -6
 done
 git -C /repo checkout -- .
